@@ -20,7 +20,7 @@ RULE = ("one evaluation = one seeded interleaving (<= 50 operations) of per-leve
         "parent restricted to the parent's selection and the manual-exclusion invariant is checked against the model's "
         "per-child sets of excluded root events. non-trivial = >=1 edit and >=1 comparison; distinct = distinct event-log digests")
 STATE_MEASURE = "distinct (depth, bitmask of levels edited since last refresh, hidden-exclusion count>0, cache-populated bitmask) tuples; actor sequences are part of the digest"
-PROBES = ["temporary_feature_initialised_from_other_dataset", "other_hierarchy_with_other_traces_before", "level_filter_reset", "same_exclusion_reentered", "nonscalar_index_array_access", "index_array_refused_like_parent", "hidden_exclusion_came_back", "hidden_exclusion_present", "cache_populated_before_refresh", "temp_feature_on_child",
+PROBES = ["read_retried_after_transient_fault", "temporary_feature_initialised_from_other_dataset", "other_hierarchy_with_other_traces_before", "level_filter_reset", "same_exclusion_reentered", "nonscalar_index_array_access", "index_array_refused_like_parent", "hidden_exclusion_came_back", "hidden_exclusion_present", "cache_populated_before_refresh", "temp_feature_on_child",
           "temp_feature_on_root", "root_config_changed", "depth_3_or_more", "manual_on_mid_level", "ancestor_filter_changed_after_manual",
           "child_created_mid_history", "root_apply_without_refresh", "empty_child", "file_backed", "root_selection_moved_same_count"]
 COMPONENTS = {"real": ["dclab RTDC_Hierarchy, HierarchyFilter, index mappers, Child* feature wrappers", "dclab Filter, temporary features, ancillary features (time, area_um, deform)"],
@@ -42,7 +42,7 @@ def plan(tier):
 
 def make_trace(seed, tier):
     r = seeds.rng(seed, "plan")
-    return {"knobs": {"n": r.choice([3, 12, 40, 120]), "depth0": r.choice([1, 1, 2, 3]), "backing": r.choice(["dict", "dict", "file"]),
+    return {"knobs": {"n": r.choice([3, 12, 40, 120]), "depth0": r.choice([1, 1, 2, 3]), "backing": r.choice(["dict", "dict", "file", "dict", "file"]),
                       "nonscalar": r.random() < 0.6},
             "max_ops": r.choice([10, 25, 50]), "ops": None}
 
@@ -97,6 +97,8 @@ class World:
                     hw.store_feature(f, v)
             root = dclab.new_dataset(p)
             ctx.probe("file_backed")
+            from dst import faultfs
+            self.rseam = faultfs.ReadFaultSeam().install()
         else:
             root = dclab.new_dataset({f: (v.copy() if isinstance(v, np.ndarray) else v) for f, v in self.data.items()})
             root.config["imaging"]["pixel size"] = 0.34
@@ -172,6 +174,10 @@ class World:
         if x < 0.46:
             # the root selects other events, but equally many (a plain dataset: re-inclusion is ordinary there)
             return {"k": "rootswap", "a": r.randrange(1 << 20), "b": r.randrange(1 << 20)}
+        if x < 0.55 and getattr(self, "rseam", None) is not None:
+            # a transient read fault of the backing file inside a read through a child, then the caller reads again
+            return {"k": "faultread", "lv": lv, "feat": r.choice(["area_cvx", "bright_avg", "frame", "area_um", "deform", "image", "mask"]),
+                    "at": r.choice([0, 0, 0, 1, 1, 2, 3, 5]), "kind": r.choice(["err", "err", "intr"])}
         if x < 0.58:
             return {"k": "read", "lv": lv, "feat": r.choice(["area_cvx", "bright_avg", "time", "area_um", "deform", "image", "mask", "contour", "trace", "tmp_c04", "index"])}
         if x < 0.64:
@@ -345,7 +351,73 @@ class World:
         elif k == "refresh":
             self.refresh_and_check("refresh")
             return
+        elif k == "faultread":
+            self.do_faultread(op, max(1, lv) if self.depth >= 1 else 0)
+            return
         ctx.state_ops += 1
+
+    def do_faultread(self, op, lv):
+        """The backing file fails once (OSError / interrupt) somewhere inside a read through a child; the caller reads
+        again.  The retry may fail, but whatever it returns must be the parent's selected events (no refresh in between:
+        state left behind by the failed read is what is judged)."""
+        ctx = self.ctx
+        seam = getattr(self, "rseam", None)
+        if seam is None or lv < 1:
+            return
+        self.refresh_and_check("before faultread")
+        ch, par = self.levels[lv], self.levels[lv - 1]
+        f = op["feat"]
+        if f not in par or len(ch) == 0:
+            return
+        # the root's scalar features are cold again, as right after opening the file (the fault model is a failing *file* read;
+        # RTDC_HDF5 keeps every scalar feature in memory after its first read, and the refresh above has read them all)
+        with warnings.catch_warnings():
+            warnings.simplefilter("ignore")
+            with ctx.sut("C04.rejuvenate", sig={"depth": min(self.depth, 3), "stale_manual": False}):
+                self.levels[-1].rejuvenate()      # (the comparison above has filled the children's caches: drop them again)
+        for ev in list(getattr(getattr(self.levels[0], "_events", None), "_cached_events", {}).values()):
+            if getattr(ev, "_array", None) is not None and hasattr(ev, "h5ds"):
+                ev._array = None
+        seam.arm(op["at"], op["kind"])
+        raised = None
+        try:
+            with warnings.catch_warnings():
+                warnings.simplefilter("ignore")
+                np.asarray(ch[f][:])
+        except BaseException as e:  # noqa: B036 (KeyboardInterrupt is one of the injected kinds)
+            if isinstance(e, (SystemExit,)) or type(e).__name__ == "StopRun":
+                seam.disarm()
+                raise
+            raised = e
+        fired = seam.disarm()
+        ctx.log(f"L{lv}", f"faultread {f}", f"fired={fired} raised={type(raised).__name__ if raised is not None else None}")
+        if raised is not None and not fired:
+            ctx.violation("C04.feature.read", f"level {lv}: reading {f} raised {type(raised).__name__}: {raised}", sig={"feat": f, "level": min(lv, 2)})
+        if not fired:
+            return
+        ctx.fault("read_" + op["kind"])
+        ctx.probe("read_retried_after_transient_fault")
+        if raised is None:
+            ctx.probe("transient_fault_swallowed")
+        for j in range(1, len(self.levels)):
+            p_, c_ = self.levels[j - 1], self.levels[j]
+            idx = np.flatnonzero(np.array(p_.filter.all, dtype=bool))
+            for g in ["area_cvx", "bright_avg", "frame", "area_um", "deform", "image", "mask"]:
+                if g not in p_ or (len(idx) == 0 and g in ("image", "mask")):
+                    continue
+                try:
+                    with warnings.catch_warnings():
+                        warnings.simplefilter("ignore")
+                        got = np.asarray(c_[g][:])
+                        exp = np.asarray(p_[g][:])[idx]
+                except Exception:
+                    ctx.probe("retry_raised")
+                    continue
+                ctx.checked()
+                if got.shape != exp.shape or not np.array_equal(got, exp, equal_nan=exp.dtype.kind == "f"):
+                    ctx.violation("C04.feature.value", f"level {j}: after a read of {f} through level {lv} failed once ({op['kind']}) the retry "
+                                                       f"returns data for {g} that differ from the parent's selected events",
+                                  sig={"feat": g if g in ("image", "mask") else "scalar", "level": min(j, 2), "after_failed_read": True})
 
     def after_partial_apply(self):
         # constructing a child on the youngest applied the whole chain: equivalent to a refresh
